@@ -1,4 +1,5 @@
 import CruxVerif.Model.Hosts
+import CruxVerif.Model.Futures
 import CruxVerif.Util.Sexp
 import CruxVerif.Util.Hex
 /-! Line protocol of the `rt` engine.
@@ -111,6 +112,16 @@ def showDirect (c : Cmd) (canon : Bool) (acts : List Action) : Option String := 
   let (os, d) ← runDirect c canon acts
   pure (showSteps canon os ++ anomalies d.w)
 
+/-- direct host of a `(task I*)` command: every step's tail also carries `g<live task futures>` (C13; the harness counts
+    drop guards captured by the task futures) -/
+def showDirectG (c : Cmd) (acts : List Action) : Option String := do
+  let (os, d) ← runDirectG c false acts
+  pure (String.intercalate " | " (os.map fun o => s!"{obsRaw o.1} g{o.2}") ++ anomalies d.w)
+
+def isTaskCmd : Cmd → Bool
+  | .task _ => true
+  | _ => false
+
 def showCore (prog : Prog) (canon : Bool) (acts : List Action) : Option String := do
   let (os, h) ← runCore prog canon acts
   pure (showSteps canon os ++ (if canon then "" else " || LOG " ++ showEvs h.k.log) ++ anomalies h.k.w)
@@ -140,9 +151,13 @@ partial def legacyExpressible (is : List Instr) : Bool :=
 
 def modelOpt (line : String) : Option String := do
   match ← Sexp.parse line with
-  | .list [.atom "direct", c, .list acts] => showDirect (← parseCmd c) false (← acts.mapM parseAction)
+  | .list [.atom "direct", c, .list acts] => do
+      let c ← parseCmd c
+      if isTaskCmd c then showDirectG c (← acts.mapM parseAction) else showDirect c false (← acts.mapM parseAction)
   -- `complete`: a direct case of the modelled fragment that is ALSO judged by the completeness clause of the oracle
-  | .list [.atom "complete", c, .list acts] => showDirect (← parseCmd c) false (← acts.mapM parseAction)
+  | .list [.atom "complete", c, .list acts] => do
+      let c ← parseCmd c
+      if isTaskCmd c then showDirectG c (← acts.mapM parseAction) else showDirect c false (← acts.mapM parseAction)
   | .list [.atom "core", .list prog, .list acts] => showCore (← parseProg prog) false (← acts.mapM parseAction)
   | .list [.atom "bridge", .list prog, .list acts] => showBridge (← parseProg prog) false (← acts.mapM parseAction)
   | .list [.atom "jbridge", .list prog, .list acts] => showBridge (← parseProg prog) false (← acts.mapM parseAction)
